@@ -83,6 +83,20 @@ def stdOp (toks : List String) : Option String :=
       | some h => pure ("ok " ++ showBytes (encRtpgExt (valsOfPV h) gs))
       | none => pure ("ok " ++ showBytes (encRtpg gs))
     | _ => none
+  | ["stdenc", "prreadfullstatus", pv] => do
+    -- {gen=i…, descs=[{header={…}, pid=i0|i3|i4|i6, tid={…}}, …]}  (fixed-size TransportIDs)
+    match ← PVText.parsePV pv with
+    | .dict d =>
+      let gen := match PDict.get? d "gen" with | some (.int n) => n | _ => 0
+      let ds ← (pvList (.dict d) "descs").mapM (fun e => do
+        let ed ← match e with | .dict ed => some ed | _ => none
+        let hv := match PDict.get? ed "header" with | some h => valsOfPV h | none => fun _ => 0
+        let pid := match PDict.get? ed "pid" with | some (.int n) => n | _ => 0
+        let K ← tidKinds.find? (·.pid == pid)
+        let tv := match PDict.get? ed "tid" with | some t => valsOfPV t | none => fun _ => 0
+        pure (hv, K, tv))
+      pure ("ok " ++ showBytes (encReadFullStatus gen ds))
+    | _ => none
   | ["stdenc", "readelementstatus", pv] => do
     -- {header={…}, pages=[{header={…}, descs=[{fields={…}, ptag=x…, atag=x…, rest=x…}, …]}, …]}
     match ← PVText.parsePV pv with
